@@ -125,7 +125,20 @@ class Pipeline:
 
         inline_flow = RowFlow(ctx.ev, f, env, set(rows_names))
         inline_stores = inline_flow.stores()
-        for stmt in body:
+
+        def flat(stmts):
+            """`with <ctx>:` blocks (timing, logging scopes) and try bodies are straight-line parts of the sequence"""
+            for s_ in stmts:
+                if isinstance(s_, (ast.With, ast.AsyncWith)):
+                    yield from flat(s_.body)
+                elif isinstance(s_, ast.Try) and not any(isinstance(x, ast.Return) for h in s_.handlers for x in ast.walk(h)):
+                    yield from flat(s_.body)
+                    yield from flat(s_.orelse)
+                    yield from flat(s_.finalbody)
+                else:
+                    yield s_
+
+        for stmt in flat(body):
             # row stores written directly in the pipeline function form a pseudo stage
             mine = [s for s in inline_stores if any(n is s.node for n in ast.walk(stmt))]
             if mine:
